@@ -43,7 +43,8 @@ func init() {
 		ID: "C31",
 		Explanation: "Decides that the three places that interpret core.autocrlf agree: (autocrlf-sets) add normalises to LF for the values {true,input} (fillEncodedObjectFromFile), status hashes normalised content for the same set " +
 			"(diffStagingWithWorktree), checkout converts to CRLF for {true} only; (binary-gate) each of the three sites decides on conversion only after convert.GetStat, on the !IsBinary() edge; (carry-state-updated) the streaming converters of utils/convert refresh every receiver field they keep between Write calls on each path that consumes a chunk (only the empty-chunk edge is exempt), " +
-			"so a line ending split across two chunks is seen. Not decided: the converted bytes themselves.",
+			"so a line ending split across two chunks is seen; (crlf-untouched) the LF-to-CRLF writer is installed on checkout only on the Stat.CRLF == 0 edge, as git's will_convert_lf_to_crlf does. Not decided: the converted bytes themselves; " +
+			"the add side's 'blob in the index already has CRLF' exception.",
 		Assumptions: []string{},
 		Run:         runC31,
 	})
@@ -589,8 +590,12 @@ func runC31(c *Ctx) {
 		gated := false
 		ast.Inspect(fi.Decl.Body, func(n ast.Node) bool {
 			if ifs, ok := n.(*ast.IfStmt); ok {
-				if u, ok := unparen(ifs.Cond).(*ast.UnaryExpr); ok && u.Op == token.NOT && nodeHasCall(u.X, false, calleeIs(finfo, isBin)) != nil {
-					gated = true
+				var facts []Fact
+				implied(ifs.Cond, true, &facts)
+				for _, ft := range facts {
+					if call, ok := unparen(ft.Atom).(*ast.CallExpr); ok && !ft.Truth && calleeIs(finfo, isBin)(call) {
+						gated = true
+					}
 				}
 			}
 			return true
@@ -598,4 +603,53 @@ func runC31(c *Ctx) {
 		c.Check(hasStat && gated, r2, fi.Name(), fi.Decl.Pos(), "conversion is decided by convert.GetStat and applied only when the content is not binary")
 	}
 	c.Floor(r2, 3)
+
+	// crlf-untouched: like git's will_convert_lf_to_crlf, LF->CRLF conversion on checkout is installed only when the
+	// content has no CRLF at all (Stat.CRLF == 0); lone CR already makes the content binary
+	const r3 = "crlf-untouched"
+	if checkout != nil {
+		finfo := checkout.Pkg.TypesInfo
+		statT := p.lookupType("utils/convert", "Stat")
+		crlfF := fieldOf(statT, "CRLF")
+		newCRLF := modPath + "/utils/convert.NewCRLFWriter"
+		okAll, nSites := true, 0
+		ast.Inspect(checkout.Decl.Body, func(n ast.Node) bool {
+			call, ok := n.(*ast.CallExpr)
+			if !ok || !calleeIs(finfo, newCRLF)(call) {
+				return true
+			}
+			nSites++
+			guarded := false
+			path := pathTo(checkout.Decl.Body, call)
+			for i := len(path) - 2; i >= 0; i-- {
+				ifs, isIf := path[i].(*ast.IfStmt)
+				if !isIf || path[i+1] != ast.Node(ifs.Body) {
+					continue
+				}
+				var facts []Fact
+				implied(ifs.Cond, true, &facts)
+				for _, ft := range facts {
+					be, isBin := unparen(ft.Atom).(*ast.BinaryExpr)
+					if !isBin || crlfF == nil || !usesObj(finfo, be, crlfF) {
+						continue
+					}
+					zero := false
+					for _, side := range []ast.Expr{be.X, be.Y} {
+						if tv := finfo.Types[side]; tv.Value != nil && tv.Value.ExactString() == "0" {
+							zero = true
+						}
+					}
+					if zero && ((be.Op == token.EQL && ft.Truth) || ((be.Op == token.NEQ || be.Op == token.GTR) && !ft.Truth)) {
+						guarded = true
+					}
+				}
+			}
+			if !guarded {
+				okAll = false
+			}
+			return true
+		})
+		c.Check(okAll && nSites > 0, r3, checkout.Name(), checkout.Decl.Pos(), orStr(ifStr(!okAll, "the LF->CRLF writer is installed although the content may already contain CRLF: git leaves such content untouched, go-git would convert its lone LFs"), "LF->CRLF conversion is installed only on the Stat.CRLF == 0 edge"))
+	}
+	c.Floor(r3, 1)
 }
